@@ -162,7 +162,7 @@ impl C07 {
                     ctx.count(&format!("outcome/{route}/err"));
                     ctx.count(&format!("error-kind/{}", err_class(&e)));
                     let toml_route = route.starts_with("toml::");
-                    let documented = u.none_in_seq || u.unit_in_seq || u.int_beyond_i64 || u.non_table_root || ((u.struct_variant_at_root || u.tuple_variant_at_root) && toml_route);
+                    let documented = u.none_in_seq || u.none_nested || u.unit_in_seq || u.int_beyond_i64 || u.non_table_root || ((u.struct_variant_at_root || u.tuple_variant_at_root) && toml_route);
                     if !documented {
                         if u.wide_int_in_range && e.contains("128") {
                             ctx.violation("in-range-128-bit-integer-refused", format!("{route} refuses a value whose i128/u128 fields all fit i64: {e}"));
@@ -216,7 +216,7 @@ impl C07 {
                 Err((loc, msg)) => ctx.violation(&format!("panic:{}", crate::short_loc(&loc)), format!("toml::ser::ValueSerializer panicked at {loc}: {msg}")),
                 Ok(Err(e)) => {
                     ctx.count("outcome/toml::ser::ValueSerializer/err");
-                    let documented = u.none_in_seq || u.unit_in_seq || u.int_beyond_i64;
+                    let documented = u.none_in_seq || u.none_nested || u.unit_in_seq || u.int_beyond_i64;
                     if !documented {
                         if u.wide_int_in_range && e.contains("128") {
                             ctx.violation("in-range-128-bit-integer-refused", format!("toml::ser::ValueSerializer refuses a value whose i128/u128 fields all fit i64: {e}"));
@@ -276,7 +276,7 @@ impl C07 {
                     match res {
                         Err(e) => {
                             ctx.count(&format!("outcome/{route}/err"));
-                            let documented = u.none_in_seq || u.unit_in_seq || u.int_beyond_i64 || (needs_table && (u.non_table_root || u.struct_variant_at_root || u.tuple_variant_at_root));
+                            let documented = u.none_in_seq || u.none_nested || u.unit_in_seq || u.int_beyond_i64 || (needs_table && (u.non_table_root || u.struct_variant_at_root || u.tuple_variant_at_root));
                             if !documented {
                                 if u.wide_int_in_range && e.contains("128") {
                                     ctx.violation("in-range-128-bit-integer-refused", format!("{route} refuses a value whose i128/u128 fields all fit i64: {e}"));
@@ -359,7 +359,7 @@ impl Check for C07 {
     fn run(&mut self, ctx: &mut Ctx, workload: &str, index: u64, rng: &mut Rng) {
         match workload {
             "dyn-table-root" | "dyn-any-root" => {
-                let shape = if workload == "dyn-table-root" { gdyn::gen_root_shape(rng) } else { gdyn::gen_any_root_shape(rng) };
+                let shape = if workload == "dyn-table-root" { gdyn::gen_root_shape_wrapped(rng) } else { gdyn::gen_any_root_shape(rng) };
                 let v = gdyn::gen_value(rng, &shape);
                 if index % 9973 == 0 {
                     ctx.sample(workload, || format!("{shape:?} = {v:?}"));
